@@ -997,7 +997,7 @@ pub fn get_aggregate_value(
             let min = raw_output_buffer
                 .iter()
                 .filter_map(|item| item.get(&buffer_key)) // Get the value from the buffer
-                .filter_map(|value| value.parse::<i64>().ok()) // Parse the value and filter out errors
+                .filter_map(|value| value.parse::<i128>().ok()) // Parse the value and filter out errors (no 64-bit limit: `max(size * size)`)
                 .min()
                 .unwrap_or(0); // If no items were found
 
@@ -1007,7 +1007,7 @@ pub fn get_aggregate_value(
             let max = raw_output_buffer
                 .iter()
                 .filter_map(|item| item.get(&buffer_key)) // Get the values from the buffer
-                .filter_map(|value| value.parse::<i64>().ok()) // Parse the value and filter out errors
+                .filter_map(|value| value.parse::<i128>().ok()) // Parse the value and filter out errors (no 64-bit limit: `max(size * size)`)
                 .max()
                 .unwrap_or(0); // If no items were found
 
